@@ -146,6 +146,68 @@ pub fn ftraps() -> Family {
     }
 }
 
+/// FM (material ladder): full 32-piece boards from which the first (or last) k rabbits and the first o officers of each
+/// side are taken off, for every k in 0..=8 and o in {0,1,2,8} per side: every material balance around the elimination of
+/// a side's rabbits (16 v 8 officers, 24 / 23 / 25 pieces, both sides without rabbits, a side with rabbits only, ...).
+/// Three base arrangements (rabbits on the back rank; rabbits on the front rank; armies advanced to ranks 3-4 / 5-6).
+pub fn fmaterial() -> Family {
+    let mut bases: Vec<rm::Board> = vec![];
+    // officers order along a rank: h d c m e c d h -> strengths 3 2 1 4 5 1 2 3
+    let offs: [u8; 8] = [3, 2, 1, 4, 5, 1, 2, 3];
+    for (g_r, g_o, s_r, s_o) in [(7usize, 6usize, 0usize, 1usize), (6, 7, 1, 0), (5, 4, 2, 3)] {
+        let mut b = [rm::EMPTY; 64];
+        for f in 0..8 {
+            b[g_r * 8 + f] = rm::cell(true, 0);
+            b[g_o * 8 + f] = rm::cell(true, offs[f]);
+            b[s_r * 8 + f] = rm::cell(false, 0);
+            b[s_o * 8 + f] = rm::cell(false, offs[f]);
+        }
+        bases.push(b);
+    }
+    const OFF: [usize; 4] = [0, 1, 2, 8];
+    let per_side = 9 * 4;
+    let n = bases.len() as u64 * (per_side * per_side) as u64 * 2 * 2;
+    Family {
+        name: "FM (material ladder: 3 full 32-piece boards with the first/last k rabbits and the first o officers of each side removed, k in 0..=8, o in {0,1,2,8}; 3 x 36^2 x 2 orders x 2 sides)".into(),
+        n,
+        how: 2,
+        setups: None,
+        decode: Box::new(move |idx| {
+            let side = idx % 2 == 0;
+            let mut i = idx / 2;
+            let from_end = i % 2 == 1;
+            i /= 2;
+            let gk = (i % 9) as usize;
+            i /= 9;
+            let go = OFF[(i % 4) as usize];
+            i /= 4;
+            let sk = (i % 9) as usize;
+            i /= 9;
+            let so = OFF[(i % 4) as usize];
+            i /= 4;
+            let mut b = bases[i as usize];
+            for (gold, k, o) in [(true, gk, go), (false, sk, so)] {
+                let mut rabbits: Vec<usize> = (0..64).filter(|&q| b[q] == rm::cell(gold, 0)).collect();
+                let mut officers: Vec<usize> = (0..64).filter(|&q| b[q] != rm::EMPTY && rm::is_gold(b[q]) == gold && rm::strength(b[q]) > 0).collect();
+                if from_end {
+                    rabbits.reverse();
+                    officers.reverse();
+                }
+                for &q in rabbits.iter().take(k) {
+                    b[q] = rm::EMPTY;
+                }
+                for &q in officers.iter().take(o) {
+                    b[q] = rm::EMPTY;
+                }
+            }
+            if b.iter().all(|&c| c == rm::EMPTY) || !legal(&b) {
+                return None;
+            }
+            Some((b, side))
+        }),
+    }
+}
+
 /// F4B: two Gold pieces (kinds R C E) and two Silver pieces (kinds r c e) on any four of the 28 border squares, plus a
 /// silver rabbit parked on d5 (so that neither elimination nor goal decides when Gold has a rabbit): every way two pieces
 /// of one side can face each other across the whole board along an edge, with their freezers next to them.  Meant for
